@@ -127,7 +127,8 @@ fn main() {
     // the profile file of the profile that should be selected holds the values; the other profile's
     // file holds poison values, so that selecting the wrong profile is visible
     // ("p" is what a profile called "p.q" degenerates to when its extension is replaced instead of appended)
-    for p in ["dev", "prd", "p.q", "p"] {
+    // (and a few names a profile could be mis-spelt as: the un-overridden variant name, another variant, other casings)
+    for p in ["dev", "prd", "p.q", "p", "prod", "ci", "Dev", "Prod", "DEV", "PRD"] {
         let content = if Some(p.to_string()) == selected { yaml(&vals[1], &style) } else { yaml(&serde_json::json!([201, 202]), &style) };
         std::fs::write(dir.join(format!("{p}.yml")), content).unwrap();
     }
